@@ -45,18 +45,20 @@ VARIABLES pc,         \* label of the next step of every process
           sweepsLeft, ticksLeft, expire, stopSweep, stopTick,
           held,       \* P: set of <<client, resource>> handed out and not yet returned
           panic,      \* P: <<>> or <<process, label, what>> of the first panic
-          stale       \* ghost: "" or why a scale-out incremented a capacity it should not have
+          stale       \* ghost: "" or the first root cause (stale scale-out / overlapping ScaleCapacity) that occurred
 
 vars == <<pc, ch, closed, capacity, available, inUse, baseCap, lock, todo, nextRes, slot, old, tgt, cnt,
           rnd, sweepsLeft, ticksLeft, expire, stopSweep, stopTick, held, panic, stale>>
 
-Init == /\ pc = [p \in Procs |->
+InitPc == [p \in Procs |->
                    IF p \in Clients THEN (IF Rounds > 0 THEN "g1" ELSE "done")
                    ELSE IF p = "sweep" THEN (IF Sweeps > 0 THEN "i0" ELSE "done")
                    ELSE IF p = "tick" THEN (IF Ticks > 0 THEN "t0" ELSE "done")
                    ELSE IF p = "worker" THEN "off"
                    ELSE IF p = "setcap" THEN (IF SetCapTo > 0 THEN "c1" ELSE "done")
                    ELSE (IF WithClose THEN "k1" ELSE "done")]
+
+Init == /\ pc = InitPc
         /\ ch = [i \in 1..InitCap |-> 0]
         /\ closed = FALSE
         /\ capacity = InitCap /\ available = InitCap /\ inUse = 0 /\ baseCap = InitCap
@@ -211,8 +213,14 @@ S2(p, a) ==
      THEN /\ capacity' = tgt[p]
           /\ cnt' = [cnt EXCEPT ![p] = IF tgt[p] < old[p] THEN old[p] - tgt[p] ELSE tgt[p] - old[p]]
           /\ Goto(p, IF tgt[p] < old[p] THEN "s3" ELSE "s4")
-     ELSE Goto(p, "s1") /\ UNCHANGED <<capacity, cnt>>
-  /\ UNCHANGED <<ch, closed, available, inUse, baseCap, lock, todo, nextRes, slot, old, tgt, rnd>> /\ uEnv /\ uGhost
+          /\ stale' = IF stale # "" THEN stale
+                      ELSE IF p = "worker" /\ tgt[p] < baseCap THEN "scale-in-below-base"
+                      ELSE IF \E q \in Scalers \ {p} : pc[q] = "s3"
+                      THEN (IF tgt[p] = 0 THEN "close-during-pending-shrink"
+                            ELSE IF tgt[p] > old[p] THEN "grow-during-pending-shrink" ELSE stale)
+                      ELSE stale
+     ELSE Goto(p, "s1") /\ UNCHANGED <<capacity, cnt, stale>>
+  /\ UNCHANGED <<ch, closed, available, inUse, baseCap, lock, todo, nextRes, slot, old, tgt, rnd, held, panic>> /\ uEnv
 
 (* s3: wrapper := <-rp.resources; close it; rp.available.Add(-1) *)
 S3(p, a) ==
@@ -437,8 +445,12 @@ SlotsConserved ==   \* every slot is in the channel or in some process's hand, a
     => Len(ch) + Cardinality({p \in Procs : slot[p] >= 0}) = capacity
 
 (* root cause of the known defects: AddCapacityResource incremented a capacity that was 0 (pool closing or     *)
-(* closed), already MaxCap (a concurrent grow), or lowered by a ScaleCapacity whose slots are not removed yet. *)
-NoStaleScaleOut == stale = ""
+(* closed), already MaxCap (a concurrent grow), or lowered by a ScaleCapacity whose slots are not removed yet; *)
+(* or Close / a growing SetCapacity swapped the capacity while another ScaleCapacity still had slots to remove  *)
+(* (the channel is closed before an outstanding resource is returned / holds a slot too many); or the scale-in   *)
+(* goroutine, which re-reads the capacity after the tick's test, shrank the pool below baseCapacity (down to 0 = *)
+(* it closes the pool).                                                                                          *)
+NoRootCause == stale = ""
 
 TypeOK == /\ capacity \in -1..(MaxCap + 2) /\ Len(ch) <= MaxCap
           /\ lock \in Procs \cup {"none"}
